@@ -544,7 +544,44 @@ def check_copies_keep_state(ctx, rule='R13-copies-keep-state'):
             ctx.undecided(rule, fi, 'Packet.%s' % n, 'a custom copy / pickle protocol: cannot see that every slot (the descriptor flags included) is carried over', fi.node.lineno, clause='a')
 
 
+def check_described_names(ctx):
+    """Round 6.  (b') the name a field is listed under (get_fields(), generated code: pkt.<name>) is
+    the attribute it reads and writes (self.field_name): a described field listed under its public
+    name makes the generated code assign the wire value *through the descriptor* (Auto.__set__),
+    which switches the automatic value off after the first unpack"""
+    repo = ctx.repo
+    rule = 'R13-slot-flow'
+    fld = repo.cls('Field')
+    fi = fld.methods.get('_describe_yourself')
+    if fi is None:
+        ctx.undecided(rule, (fld.file, 'Field'), 'Field._describe_yourself', 'anchor not found', fld.node.lineno, clause='b')
+        return
+    n = 0
+    for p in repo.walker(inline_depth=2).paths(fi.node, cls=fld):
+        if p.raises():
+            continue
+        r = p.ret()
+        if not isinstance(r, (ast.List, ast.Tuple)):
+            continue
+        stored = [e for e in p.all_effects() if e.kind == 'store_attr' and canon(e.obj) == 'self' and e.name == 'field_name']
+        own = canon(stored[-1].value) if stored else None
+        for el in r.elts:
+            if isinstance(el, ast.Tuple) and len(el.elts) == 2 and canon(el.elts[1]) == 'self':
+                n += 1
+                listed = canon(el.elts[0])
+                st = 'path [%s]: listed as %s, self.field_name = %s' % ('; '.join(p.guard_texts())[:80], listed, own)
+                if listed in ('self.field_name', own):
+                    ctx.holds(rule, fi, st, 'listed under the attribute it uses', fi.node.lineno, clause='b')
+                elif own is not None:
+                    ctx.violation(rule, fi, st, 'the field is listed under another name than the attribute it reads and writes: the generated code and the comparison / representation address the packet through that other name (for a described field: through the descriptor)', fi.node.lineno, clause='b', witness=True)
+                else:
+                    ctx.undecided(rule, fi, st, 'cannot relate the listed name to self.field_name', fi.node.lineno, clause='b')
+    if not n:
+        ctx.undecided(rule, fi, 'Field._describe_yourself', 'no (name, self) entry found in what it returns', fi.node.lineno, clause='b')
+
+
 def check(ctx):
+    check_described_names(ctx)
     check_auto(ctx)
     check_copies_keep_state(ctx)
     check_slots(ctx)
